@@ -183,6 +183,7 @@ fn server_bases(tier: Tier) -> Vec<SCfg> {
                                 finish: *f,
                                 hk: HKind::Run,
                                 cancel: false,
+                                at_ms: None,
                             })
                             .collect();
                         out.push(SCfg {
